@@ -1144,7 +1144,7 @@ def FIBER(
     if not isinstance(input, optical_signal):
         raise TypeError("`input` must be of type (optical_signal).")
 
-    alpha = alpha / 4.343  # [1/km]
+    alpha = alpha * np.log(10) / 10  # [1/km]
 
     w = input.w() * 1e-12  # [rad/ps]
     D_op = -alpha / 2 - 1j / 2 * beta_2 * w**2 - 1j / 6 * beta_3 * w**3
